@@ -18,7 +18,7 @@ NCPU = int(os.environ.get("VERIF_JOBS", os.cpu_count() or 8))
 SUT_DIRS = ["src/containers", "src/utilities", "src/internal", "src/internal/md5", "src/ipc"]
 SUT_EXTRA = ["src/extensions/qlog.c"]
 INCLUDES = ["-I%s/include/qlibc" % REPO, "-I%s/include" % REPO, "-I%s/src/internal" % REPO]
-WRAPS = "malloc,calloc,realloc,strdup,free,pthread_mutex_trylock,pthread_mutex_unlock,usleep,time"
+WRAPS = "malloc,calloc,realloc,strdup,free,pthread_mutex_trylock,pthread_mutex_unlock,usleep,time,fopen"
 NOBUILTIN = ["-fno-builtin-malloc", "-fno-builtin-calloc", "-fno-builtin-realloc", "-fno-builtin-strdup", "-fno-builtin-free"]
 SHIPPED = ["-std=gnu99", "-O2", "-g", "-DNDEBUG"]
 
@@ -515,6 +515,50 @@ def cmd_replay(argv):
     return r.returncode
 
 
+def cmd_selfcheck(args):
+    """Determinism of the simulator: the same seeds executed twice, in different processes, split over different
+    worker counts, must give identical trace and schedule hashes."""
+    n = int(args[0]) if args else 2000
+    rundir = new_rundir()
+    log = open(os.path.join(rundir, "selfcheck.log"), "w")
+    bad = 0
+    total = 0
+    report = {}
+    for variant, props in (("plain", ["C01", "C03", "C04", "C05", "C06", "C07", "C08", "C09", "C10", "C14", "C15"]), ("asan", ["C11", "C12", "C13", "C15"]), ("tsan", ["C13"])):
+        exe, _, _ = build_variant(variant, rundir, log)
+        for prop in props:
+            base = VARIANT_BASE[variant]
+            nn = n if variant == "plain" else max(200, n // 4)
+
+            def run_split(workers, tag):
+                step = (nn + workers - 1) // workers
+                jobs = [(base + i * step, min(base + (i + 1) * step, base + nn)) for i in range(workers)]
+                def one(j):
+                    sc = os.path.join(rundir, "sc-%s-%s-%s-%d" % (variant, prop, tag, j[0]))
+                    os.makedirs(sc, exist_ok=True)
+                    r = subprocess.run([exe, "hashes", "--prop", prop, "--from", str(j[0]), "--to", str(j[1]), "--scratch", sc], stdout=subprocess.PIPE, stderr=subprocess.DEVNULL, text=True)
+                    return [l for l in r.stdout.splitlines() if l.startswith("H ")]
+                with ThreadPoolExecutor(workers) as ex:
+                    out = []
+                    for part in ex.map(one, jobs):
+                        out += part
+                return {l.split()[1]: l for l in out}
+            a = run_split(1, "a")
+            b = run_split(min(16, NCPU), "b")
+            diff = [k for k in a if a[k] != b.get(k)]
+            missing = [k for k in a if k not in b] + [k for k in b if k not in a]
+            total += len(a)
+            report["%s/%s" % (variant, prop)] = dict(seeds=len(a), differing=len(diff), missing=len(missing))
+            if diff or missing:
+                bad += len(diff) + len(missing)
+                print("NONDETERMINISTIC %s %s: %d differing, %d missing; e.g. %s | %s" % (variant, prop, len(diff), len(missing), a.get((diff or missing)[0]), b.get((diff or missing)[0])))
+            else:
+                print("deterministic %s %s: %d seeds x 2 executions (1 vs %d processes)" % (variant, prop, len(a), min(16, NCPU)))
+    os.makedirs(os.path.join(ROOT, "evidence"), exist_ok=True)
+    json.dump(dict(total_seeds=total, nondeterministic=bad, detail=report), open(os.path.join(ROOT, "evidence", "selfcheck.json"), "w"), indent=1)
+    return 2 if bad else 0
+
+
 def cmd_dev(args):
     """developer helper: build one variant into build/dev (kept)"""
     d = os.path.join(BUILD, "dev")
@@ -534,6 +578,8 @@ def main(argv):
         return cmd_build(argv[1:])
     if argv[0] == "dev":
         return cmd_dev(argv[1:])
+    if argv[0] == "selfcheck":
+        return cmd_selfcheck(argv[1:])
     if argv[0] == "check":
         return cmd_check(argv[1:])
     if argv[0] == "replay":
